@@ -1,9 +1,10 @@
 (** Extraction of the Tier-2 executable models (run from build/ocaml). *)
 From Coq Require Extraction.
 From Coq Require Import ExtrOcamlBasic.
-From Garr Require Import Pure.F64 Pure.Retry Pure.Config Pure.Spec.
+From Garr Require Import Pure.F64 Pure.Retry Pure.Config Pure.Spec Pure.Builder.
 Extraction Blacklist List String Int Bool Nat.
 Extraction "pure_model.ml"
   of_bits to_bits validate exceeds failure_rate
   new_fixed new_expo new_random new_jitter new_limit next_delay with_jitter build
-  parse_int parse_spec build_spec sat_mul next_incl_zero next_random wrap64.
+  parse_int parse_spec build_spec sat_mul next_incl_zero next_random wrap64
+  binit bstep brun.
